@@ -384,6 +384,16 @@ def _classify(an: Analysis, module, name, value, cls):
                 return 'ok', 'immutable value'
         if short_name in ('__make_init__', '__binary_op__', '__comparison_op__'):
             return 'ok', 'generated function'
+        if isinstance(value.func, ast.Attribute) and value.func.attr == 'get' and \
+                isinstance(value.func.value, ast.Name) and cls is None:
+            # a lookup in a module level table of classes / constants selects one of them
+            tables = module.assigns.get(value.func.value.id, [])
+            if tables and all(isinstance(v, ast.Dict) and all(
+                    isinstance(x, (ast.Name, ast.Attribute, ast.Constant))
+                    for x in v.values) for v, _s in tables) and all(
+                    isinstance(a, (ast.Name, ast.Attribute, ast.Constant, ast.Call))
+                    for a in value.args[1:]):
+                return 'ok', 'alias selected from a constant table'
         binding = an.p.resolve_dotted(module, value.func)
         if binding == ('ext', 'builtins.object') and not value.args and not value.keywords:
             return 'ok', 'a bare object(): a marker without any attribute to write'
